@@ -11,7 +11,7 @@ from litedram.common import LiteDRAMNativePort
 from litedram.frontend.avalon import LiteDRAMAvalonMM2Native
 
 from ..engine import Sim
-from ..agents import NativeMemSlave, Violations, word_of, init_byte, RefMem
+from ..agents import stuck, NativeMemSlave, Violations, word_of, init_byte, RefMem
 from .c07 import gen_pattern, gen_extra
 
 ID = "C11"
@@ -215,6 +215,8 @@ def run(scn):
     while cyc < cap:
         sim.step()
         cyc += 1
+        if not cyc & 63 and stuck(sim, cyc):
+            break       # no handshake anywhere for 20000 cycles: the run is stuck, do not spin to the cap
         if mas.done() and mem.idle() and got[0] >= len(expect):
             quiet += 1
             if quiet > need_quiet:
